@@ -85,7 +85,7 @@ package keeper
 //@           && st.locking.UnlockQueue[due].Unlocks[len(st.locking.UnlockQueue[due].Unlocks) - 1].Amount == paid
 //@           && st.locking.UnlockQueue[due].Unlocks[len(st.locking.UnlockQueue[due].Unlocks) - 1].Id == req.Id
 //@ ensures delay: err == nil ==> due >= blocktime() + param.UnlockDuration && (exiting ==> due == blocktime() + param.ExitingDuration)
-//@ ensures exit_drops_power: err == nil && exiting ==> st.locking.Validators[vaddr].Power == 0 && (oldstatus == 3 ==> st.locking.Validators[vaddr].Status == 3) && (oldstatus != 3 ==> st.locking.Validators[vaddr].Status == 5)
+//@ ensures exit_drops_power: err == nil && exiting ==> st.locking.Validators[vaddr].Power == 0 && (oldstatus == 3 ==> st.locking.Validators[vaddr].Status == 3) && ((oldstatus == 1 || oldstatus == 2 || oldstatus == 4 || oldstatus == 5) ==> st.locking.Validators[vaddr].Status == 5)
 //@ ensures tombstone_absorbing: err == nil && oldstatus == 3 ==> st.locking.Validators[vaddr].Status == 3 && st.locking.Validators[vaddr].Power == 0
 //@ ensures others_untouched: err == nil ==> forallb(a, a != vaddr ==> has(st.locking.Validators, a) == old(has(st.locking.Validators, a)) && st.locking.Validators[a] == old(st.locking.Validators[a]))
 //@ loop 0 invariant true
